@@ -106,7 +106,7 @@ theorem flag_clusters_classified :
 theorem dispatchX_congr (tool : String) (ord : List String → Nat) (s : CliSpec) (argv argv' : List String)
     (hp : parseX s argv = parseX s argv') (ht : topAmbiguous tool s.kind argv = topAmbiguous tool s.kind argv') :
     dispatchSpecX tool ord s argv = dispatchSpecX tool ord s argv' := by
-  unfold dispatchSpecX dispatchTemplateX
+  unfold dispatchSpecX
   rw [hp, ht]
 
 /-- T-C17.6a ABBREVIATION.  A token that the sub-command's parser reads as the option string `f` — by
